@@ -5,7 +5,9 @@ from common import *
 
 def replay(cls, path):
     if hasattr(cls, "replay_file"):
-        return cls.replay_file(path)
+        r = cls.replay_file(path)
+        if r is not None:
+            return r
     j = json.load(open(path))
     if "script" not in j:
         print(json.dumps(j, indent=1)); return 0
